@@ -110,7 +110,7 @@ theorem readChrom_writeChrom_multi : ∀ (rs : List Record) (prevW prevR : Optio
     have hok' : ∀ r' ∈ rs, CallsOk cfg r' := fun r' h' => hok r' (List.mem_cons_of_mem _ h')
     have hW' : ∀ p, (writeRecord cfg prevW r).prev = some p → ∀ r' ∈ rs, p < r'.pos := by
       intro p hp r' h'
-      rcases writeRecord_prev cfg prevW r with e | e
+      rcases C02P.writeRecord_prev cfg prevW r with e | e
       · rw [e] at hp; cases hp; exact hpw.1 r' h'
       · rw [e] at hp; exact hW p hp r' (List.mem_cons_of_mem _ h')
     obtain ⟨_, hpos, href, halts⟩ := writeRecord_site cfg prevW r
